@@ -55,6 +55,46 @@ thread_local! {
     static TIDS: RefCell<Vec<(u8, String)>> = RefCell::new(Vec::new());
 }
 
+/// Injected panic: fires immediately before op (tid, pc) the `hit`-th time that op is reached
+/// during the current model run.
+#[derive(Clone, Copy, Debug, PartialEq, Eq, serde::Serialize, serde::Deserialize)]
+pub struct PanicFault {
+    pub tid: u8,
+    pub pc: u16,
+    pub hit: u32,
+    pub marker: u32,
+}
+
+thread_local! {
+    static FAULT: std::cell::Cell<Option<PanicFault>> = std::cell::Cell::new(None);
+    static FAULT_HITS: std::cell::Cell<u32> = std::cell::Cell::new(0);
+    static FAULT_FIRED: std::cell::Cell<bool> = std::cell::Cell::new(false);
+}
+
+pub fn set_panic_fault(f: Option<PanicFault>) {
+    FAULT.with(|c| c.set(f));
+    FAULT_HITS.with(|c| c.set(0));
+    FAULT_FIRED.with(|c| c.set(false));
+}
+pub fn panic_fault_fired() -> bool {
+    FAULT_FIRED.with(|c| c.get())
+}
+
+fn maybe_inject(tid: u8, pc: usize) {
+    if let Some(f) = FAULT.with(|c| c.get()) {
+        if f.tid == tid && f.pc as usize == pc {
+            let n = FAULT_HITS.with(|c| {
+                c.set(c.get() + 1);
+                c.get()
+            });
+            if n == f.hit {
+                FAULT_FIRED.with(|c| c.set(true));
+                panic!("VERIF-PANIC-{}", f.marker);
+            }
+        }
+    }
+}
+
 fn rec(tid: u8, pc: usize, kind: HK, res: Option<u64>) {
     REC.with(|r| r.borrow_mut().push(HEv { tid, pc: pc as u16, kind, res }));
 }
@@ -80,10 +120,15 @@ impl Drop for OpGuard {
 
 pub struct Payload {
     pub arc_idx: u8,
+    /// stands for the payload's memory: holders read it, the destructor writes it
+    pub cell: loom::cell::UnsafeCell<u64>,
 }
 impl Drop for Payload {
     fn drop(&mut self) {
         PAYLOAD_DROPS.with(|d| d.borrow_mut().push(self.arc_idx));
+        if !std::thread::panicking() {
+            self.cell.with_mut(|_| ());
+        }
     }
 }
 thread_local! {
@@ -106,8 +151,6 @@ struct Env {
     threads: RefCell<Vec<Option<loom::thread::Thread>>>,
     /// initial Arc handles waiting for their owner thread: [arc][thread]
     arc_init: RefCell<Vec<Vec<Option<LArc>>>>,
-    tracks: RefCell<Vec<Option<loom::alloc::Track<u8>>>>,
-    blocks: RefCell<Vec<Option<*mut u8>>>,
 }
 
 struct Ctx {
@@ -117,12 +160,16 @@ struct Ctx {
     wguards: Vec<Option<loom::sync::RwLockWriteGuard<'static, ()>>>,
     rx: Vec<Option<loom::sync::mpsc::Receiver<u64>>>,
     arcs: Vec<Vec<LArc>>,
+    /// Track values / raw blocks are owned by the thread that created them (objects only move
+    /// between threads through loom-visible synchronisation)
+    tracks: Vec<Option<loom::alloc::Track<u8>>>,
+    blocks: Vec<Option<*mut u8>>,
     results: Vec<Option<u64>>,
     tid: u8,
     env: Rc<Env>,
 }
 
-fn thread_body(env: Rc<Env>, tid: u8) {
+fn thread_body(env: Rc<Env>, tid: u8, initial_arcs: Vec<(usize, LArc)>) {
     let p = env.p.clone();
     let nm = p.n_mutex as usize;
     let nl = p.n_rwlock as usize;
@@ -133,6 +180,8 @@ fn thread_body(env: Rc<Env>, tid: u8) {
         wguards: (0..nl).map(|_| None).collect(),
         rx: (0..nc).map(|_| None).collect(),
         arcs: (0..p.arcs.len()).map(|_| Vec::new()).collect(),
+        tracks: (0..p.n_track).map(|_| None).collect(),
+        blocks: (0..p.n_block).map(|_| None).collect(),
         results: vec![None; p.threads[tid as usize].len()],
         tid,
         env: env.clone(),
@@ -150,10 +199,9 @@ fn thread_body(env: Rc<Env>, tid: u8) {
             cx.rx[c] = env.receivers.borrow_mut()[c].take();
         }
     }
-    for r in 0..p.arcs.len() {
-        if let Some(h) = env.arc_init.borrow_mut()[r][tid as usize].take() {
-            cx.arcs[r].push(h);
-        }
+    // handles owned by the thread's closure (moved in at spawn)
+    for (r, h) in initial_arcs {
+        cx.arcs[r].push(h);
     }
     let id = format!("{:?}", loom::thread::current().id());
     TIDS.with(|t| t.borrow_mut().push((tid, id)));
@@ -161,6 +209,7 @@ fn thread_body(env: Rc<Env>, tid: u8) {
     for pc in 0..n {
         let op = &p.threads[tid as usize][pc];
         rec(tid, pc, HK::Inv, None);
+        maybe_inject(tid, pc);
         let g = OpGuard { tid, pc };
         let res = exec(&mut cx, op, pc);
         std::mem::forget(g);
@@ -180,6 +229,9 @@ impl Drop for Ctx {
         }
         for rx in self.rx.drain(..).flatten() {
             std::mem::forget(rx);
+        }
+        for t in self.tracks.drain(..).flatten() {
+            std::mem::forget(t);
         }
     }
 }
@@ -244,7 +296,14 @@ fn exec(cx: &mut Ctx, op: &Op, pc: usize) -> Option<u64> {
         }
         Op::Spawn { t } => {
             let e2 = env.clone();
-            let h = loom::thread::spawn(move || thread_body(e2, t));
+            // the spawned closure owns the thread's initial loom::sync::Arc handles
+            let mut handles: Vec<(usize, LArc)> = Vec::new();
+            for r in 0..env.p.arcs.len() {
+                if let Some(h) = env.arc_init.borrow_mut()[r][t as usize].take() {
+                    handles.push((r, h));
+                }
+            }
+            let h = loom::thread::spawn(move || thread_body(e2, t, handles));
             env.threads.borrow_mut()[t as usize] = Some(h.thread().clone());
             env.join.borrow_mut()[t as usize] = Some(h);
             None
@@ -378,9 +437,11 @@ fn exec(cx: &mut Ctx, op: &Op, pc: usize) -> Option<u64> {
         Op::ArcDrop { r } => match cx.arcs[r as usize].pop() {
             Some(h) => {
                 let before = PAYLOAD_DROPS.with(|d| d.borrow().len());
+                h.cell.with(|_| ());
                 drop(h);
-                let after = PAYLOAD_DROPS.with(|d| d.borrow().len());
-                Some((after > before) as u64)
+                // other threads may have dropped other payloads meanwhile: look for ours
+                let mine = PAYLOAD_DROPS.with(|d| d.borrow()[before..].contains(&r));
+                Some(mine as u64)
             }
             None => None,
         },
@@ -389,15 +450,22 @@ fn exec(cx: &mut Ctx, op: &Op, pc: usize) -> Option<u64> {
                 let before = PAYLOAD_DROPS.with(|d| d.borrow().len());
                 let ptr = loom::sync::Arc::into_raw(h);
                 unsafe { loom::sync::Arc::decrement_strong_count(ptr) };
-                let after = PAYLOAD_DROPS.with(|d| d.borrow().len());
-                Some((after > before) as u64)
+                // other threads may have dropped other payloads meanwhile: look for ours
+                let mine = PAYLOAD_DROPS.with(|d| d.borrow()[before..].contains(&r));
+                Some(mine as u64)
             }
             None => None,
         },
         Op::ArcCount { r } => cx.arcs[r as usize].last().map(|h| loom::sync::Arc::strong_count(h) as u64),
         Op::ArcGetMut { r } => cx.arcs[r as usize]
             .last_mut()
-            .map(|h| loom::sync::Arc::get_mut(h).is_some() as u64),
+            .map(|h| match loom::sync::Arc::get_mut(h) {
+                Some(p) => {
+                    p.cell.with_mut(|_| ());
+                    1
+                }
+                None => 0,
+            }),
         Op::ArcTryUnwrap { r } => match cx.arcs[r as usize].pop() {
             Some(h) => match loom::sync::Arc::try_unwrap(h) {
                 Ok(payload) => {
@@ -438,22 +506,26 @@ fn exec(cx: &mut Ctx, op: &Op, pc: usize) -> Option<u64> {
         }
         Op::ArcGive { .. } => unimplemented!(),
         Op::TrackNew { k } => {
-            env.tracks.borrow_mut()[k as usize] = Some(loom::alloc::Track::new(0u8));
+            // no-op if the slot is occupied
+            if cx.tracks[k as usize].is_none() {
+                cx.tracks[k as usize] = Some(loom::alloc::Track::new(0u8));
+            }
             None
         }
         Op::TrackDrop { k } => {
-            let t = env.tracks.borrow_mut()[k as usize].take();
+            let t = cx.tracks[k as usize].take();
             drop(t);
             None
         }
         Op::Alloc { k } => {
-            let ptr = unsafe { loom::alloc::alloc(loom::alloc::Layout::new::<u64>()) };
-            env.blocks.borrow_mut()[k as usize] = Some(ptr);
+            if cx.blocks[k as usize].is_none() {
+                let ptr = unsafe { loom::alloc::alloc(loom::alloc::Layout::new::<u64>()) };
+                cx.blocks[k as usize] = Some(ptr);
+            }
             None
         }
         Op::Dealloc { k } => {
-            let ptr = env.blocks.borrow_mut()[k as usize].take();
-            if let Some(ptr) = ptr {
+            if let Some(ptr) = cx.blocks[k as usize].take() {
                 unsafe { loom::alloc::dealloc(ptr, loom::alloc::Layout::new::<u64>()) };
             }
             None
@@ -498,7 +570,7 @@ fn model_body(p: StdArc<Program>) {
     }
     let mut arc_init: Vec<Vec<Option<LArc>>> = Vec::new();
     for (r, owners) in p.arcs.iter().enumerate() {
-        let first = loom::sync::Arc::new(Payload { arc_idx: r as u8 });
+        let first = loom::sync::Arc::new(Payload { arc_idx: r as u8, cell: loom::cell::UnsafeCell::new(0) });
         let mut slots: Vec<Option<LArc>> = (0..nt).map(|_| None).collect();
         for &o in owners {
             if o != 0 {
@@ -520,12 +592,16 @@ fn model_body(p: StdArc<Program>) {
         join: RefCell::new((0..nt).map(|_| None).collect()),
         threads: RefCell::new((0..nt).map(|_| None).collect()),
         arc_init: RefCell::new(arc_init),
-        tracks: RefCell::new((0..p.n_track).map(|_| None).collect()),
-        blocks: RefCell::new((0..p.n_block).map(|_| None).collect()),
         p: p.clone(),
     });
     env.threads.borrow_mut()[0] = Some(loom::thread::current());
-    thread_body(env, 0);
+    let mut mine: Vec<(usize, LArc)> = Vec::new();
+    for r in 0..p.arcs.len() {
+        if let Some(h) = env.arc_init.borrow_mut()[r][0].take() {
+            mine.push((r, h));
+        }
+    }
+    thread_body(env, 0, mine);
 }
 
 #[derive(Clone, Debug, PartialEq, Eq, Hash, serde::Serialize, serde::Deserialize)]
